@@ -11,7 +11,14 @@ EXTENDS CellGridOps
    NOT configuration substitutions (Queries <- ...): TLC re-evaluates a substituted constant
    at every reference (measured: 1 s per state instead of 10 ms). *)
 CONSTANT Tier
-
+(* Besides the query-heavy families (Inputs, evaluated with the query lattice Queries) there
+   is a second, cheap exhaustive family PairInputs, evaluated with the few queries
+   QueriesPairs: two atoms whose displacement runs through EVERY class of displacements
+   modulo the box, for every tabulated box (all 8 tilt patterns), atoms inside and outside
+   the box.  It carries the clause "the adjacency matrix equals the thresholded pairwise
+   distance matrix" (and the periodic queries) through the whole box, which the query-heavy
+   families with their few atom positions cannot afford.  The state variable vq tells which
+   query list an input is evaluated with ("grid" = Queries, "few" = QueriesPairs). *)
 
 \* sequences up to permutation: keep those sorted by a rank function
 PtRank(p) == 100 * (p[1] + 5) + 10 * (p[2] + 5) + (p[3] + 5)
@@ -47,8 +54,20 @@ InputsQuick ==
   \cup WithSel(SortedSeqs({<<0, 0, 0>>, <<1, 2, 0>>, <<3, 0, 1>>, <<1, 2, 1>>}, 3) \cup SortedSeqs({<<0, 1, 0>>, <<2, 1, 3>>}, 2), {CS1, CS2})
   \cup Periodic(UpTo({<<0, 0, 0>>, <<3, 1, 0>>, <<1, 3, 2>>, <<4, 5, -1>>, <<2, 2, 2>>}, 2), {CS1, CS2}, {Ortho444, Tric1})
   \cup Periodic(UpTo({<<0, 0, 0>>, <<1, 3, 7>>, <<3, 1, 4>>}, 2), {CS32}, {Ortho248, Tric2, RotOrtho})
+  \cup Periodic(UpTo({<<0, 0, 0>>, <<1, 3, 2>>, <<3, 1, 4>>}, 2), {CS2}, TiltBoxes \cup {Tric3})
   \cup PeriodicSel(SortedSeqs({<<0, 0, 0>>, <<3, 1, 0>>, <<1, 3, 2>>}, 3), {CS2}, {Ortho444, Tric1})
 QueriesQuick == Thin(QueriesOf(-2, 5)) \o FarQueries
+
+\* second atom = first atom + w (+ a lattice vector), w over all points of the box
+PairStarts == {<<Zero3, Zero3>>, <<<<-1, 2, 5>>, <<1, -1, 0>>>>, <<<<3, 3, 1>>, <<0, 1, -2>>>>}
+PairsOf(B, ST) == {<<<<st[1], VAdd(VAdd(st[1], w), LatVec(st[2], B))>>, CS2, <<B>>, <<>>>> : w \in BoxPoints(B), st \in ST}
+\* quick: one box per tilt pattern and two starts; thorough: every tabulated box, three starts
+OnePerPattern == {Ortho444, Tric1, Tric2, Tric3} \cup TiltBoxes
+PairInputs == CASE Tier = "tiny" -> PairsOf(TricBC, {<<Zero3, Zero3>>})
+                [] Tier = "quick" -> UNION {PairsOf(B, {<<Zero3, Zero3>>, <<<<-1, 2, 5>>, <<1, -1, 0>>>>}) : B \in OnePerPattern}
+                [] Tier = "thorough" -> UNION {PairsOf(B, PairStarts) : B \in TabBoxes}
+QueriesPairs == <<<<0, 0, 0>>, <<1, 3, 2>>, <<2, 1, 3>>, <<-3, 2, 6>>, <<-9, 0, 1>>, <<1, -11, 2>>>>
+ASSUME {TiltPattern(B) : B \in OnePerPattern} = BOOLEAN \X BOOLEAN \X BOOLEAN
 
 InputsThorough ==
        Plain(UpTo(Pts(3, 2, 1), 2), {CS1, CS32, CS2, CS5, CS12})
@@ -57,6 +76,7 @@ InputsThorough ==
   \cup Periodic(UpTo({<<0, 0, 0>>, <<3, 1, 0>>, <<1, 3, 2>>, <<4, 5, -1>>, <<2, 2, 2>>, <<-1, 0, 3>>, <<7, 7, 1>>}, 2), {CS1, CS2, CS32}, TabBoxes)
   \cup Periodic(SortedSeqs({<<0, 0, 0>>, <<3, 1, 0>>, <<1, 3, 2>>, <<4, 5, -1>>, <<-1, 0, 3>>}, 3), {CS2}, {Ortho444, Tric1, Tric3})
   \cup PeriodicSel(SortedSeqs({<<0, 0, 0>>, <<3, 1, 0>>, <<1, 3, 2>>, <<2, 2, 2>>}, 3), {CS2, CS1}, {Ortho444, Tric1, Tric2})
+  \cup PeriodicSel(SortedSeqs({<<0, 0, 0>>, <<3, 1, 0>>, <<1, 3, 2>>}, 3), {CS2}, TiltBoxes)
 QueriesThorough == QueriesOf(-2, 5) \o FarQueries
 
 Inputs    == CASE Tier = "tiny" -> InputsTiny [] Tier = "quick" -> InputsQuick [] Tier = "thorough" -> InputsThorough
@@ -70,62 +90,78 @@ MultiShifts == <<0, 3>>
 MultiRho(j, s) == Radii[((j + s) % Len(Radii)) + 1]
 
 (* Evaluate(inp) = <<result, checks>>.
-   result = <<near, multi, must, cells, adj>>:
-     (rows over the queries are packed with PackRow)
-     near[r][j]   bits of get_atoms(Queries[j], Radii[r])
-     multi[s][j]  bits of get_atoms(Queries, per-query radii MultiRho(j, MultiShifts[s]))[j]
-     must[c][j]   bits every get_atoms_in_cells(Queries[j], CellRadii[c]) must contain
+   result = <<near, multi, must, cells, adj, pair>>:
+     (rows over the queries Q are packed with PackRow)
+     near[r][j]   bits of get_atoms(Q[j], Radii[r])
+     multi[s][j]  bits of get_atoms(Q, per-query radii MultiRho(j, MultiShifts[s]))[j]
+     must[c][j]   bits every get_atoms_in_cells(Q[j], CellRadii[c]) must contain
      cells[c][j]  bits the implementation-shaped grid returns for that call (diagnostic)
      adj[r][k]    bits of row k of create_adjacency_matrix(Radii[r])
-   checks = <<exact, superset, adjacency, grid>> the design claims for this input. *)
-Evaluate(inp) ==
+     pair         <<d2, exact>>: d2[k][m] the squared (minimum-image) distance of atoms k, m as
+                  the pairwise distance functions have to report it, exact = PairExact(inp)
+                  (FALSE: the box is outside Dom_Images8, entries may be larger)
+   checks = <<exact, superset, adjacency, grid, pairdist>> the design claims for this input. *)
+Evaluate(inp, Q) ==
   LET g   == Grid(inp)
       sel == Selected(inp)
       n   == N(inp)
       \* squared distances: queries x atoms, atoms x atoms (declarative layer)
-      dq  == Eager([j \in DOMAIN Queries |-> Eager([k \in 1..n |-> D2P(inp, g.bx, inp[1][k], Queries[j])])])
+      dq  == Eager([j \in DOMAIN Q |-> Eager([k \in 1..n |-> D2P(inp, g.bx, inp[1][k], Q[j])])])
       da  == Eager([k \in 1..n |-> Eager([m \in 1..n |-> D2P(inp, g.bx, inp[1][k], inp[1][m])])])
       near(j, rho) == {k \in sel : Within(dq[j][k], rho)}
       adjrow(k, rho) == IF k \in sel THEN {m \in sel : Within(da[k][m], rho)} ELSE {}
       \* implementation-shaped layer
-      qq  == Eager([j \in DOMAIN Queries |-> ImplQuery(inp, g, Queries[j])])
-      qc  == Eager([j \in DOMAIN Queries |-> CellOf(qq[j], g.mn, inp[2])])
+      qq  == Eager([j \in DOMAIN Q |-> ImplQuery(inp, g, Q[j])])
+      qc  == Eager([j \in DOMAIN Q |-> CellOf(qq[j], g.mn, inp[2])])
       cr  == Eager([r \in DOMAIN Radii |-> CellRadius(Radii[r], inp[2])])
       \* per query and stored position: <<Chebyshev cell distance, squared distance>>
-      pm  == Eager([j \in DOMAIN Queries |->
+      pm  == Eager([j \in DOMAIN Q |->
                      Eager([m \in DOMAIN g.C |-> <<CellCheb(g.ac[m], qc[j], g.cnt), Dist2(g.C[m], qq[j])>>])])
       inear(j, r) == {OrigOf(inp, m) : m \in {x \in g.stored : pm[j][x][1] <= cr[r] /\ Within(pm[j][x][2], Radii[r])}}
       icells(j, c) == {OrigOf(inp, m) : m \in {x \in g.stored : pm[j][x][1] <= c}}
-      Near_  == Eager([r \in DOMAIN Radii |-> Eager([j \in DOMAIN Queries |-> near(j, Radii[r])])])
-      INear_ == Eager([r \in DOMAIN Radii |-> Eager([j \in DOMAIN Queries |-> inear(j, r)])])
-      Must_  == Eager([c \in DOMAIN CellRadii |-> Eager([j \in DOMAIN Queries |-> near(j, CellRho(inp[2], CellRadii[c]))])])
-      Cells_ == Eager([c \in DOMAIN CellRadii |-> Eager([j \in DOMAIN Queries |-> icells(j, CellRadii[c])])])
+      Near_  == Eager([r \in DOMAIN Radii |-> Eager([j \in DOMAIN Q |-> near(j, Radii[r])])])
+      INear_ == Eager([r \in DOMAIN Radii |-> Eager([j \in DOMAIN Q |-> inear(j, r)])])
+      Must_  == Eager([c \in DOMAIN CellRadii |-> Eager([j \in DOMAIN Q |-> near(j, CellRho(inp[2], CellRadii[c]))])])
+      Cells_ == Eager([c \in DOMAIN CellRadii |-> Eager([j \in DOMAIN Q |-> icells(j, CellRadii[c])])])
       Adj_   == Eager([r \in DOMAIN Radii |-> Eager([k \in 1..n |-> adjrow(k, Radii[r])])])
-  IN << << [r \in DOMAIN Radii |-> PackRow([j \in DOMAIN Queries |-> BitsOf(Near_[r][j])])],
-           [s \in DOMAIN MultiShifts |-> PackRow([j \in DOMAIN Queries |-> BitsOf(near(j, MultiRho(j, MultiShifts[s])))])],
-           [c \in DOMAIN CellRadii |-> PackRow([j \in DOMAIN Queries |-> BitsOf(Must_[c][j])])],
-           [c \in DOMAIN CellRadii |-> PackRow([j \in DOMAIN Queries |-> BitsOf(Cells_[c][j])])],
-           [r \in DOMAIN Radii |-> [k \in 1..n |-> BitsOf(Adj_[r][k])]] >>,
+  IN << << [r \in DOMAIN Radii |-> PackRow([j \in DOMAIN Q |-> BitsOf(Near_[r][j])])],
+           [s \in DOMAIN MultiShifts |-> PackRow([j \in DOMAIN Q |-> BitsOf(near(j, MultiRho(j, MultiShifts[s])))])],
+           [c \in DOMAIN CellRadii |-> PackRow([j \in DOMAIN Q |-> BitsOf(Must_[c][j])])],
+           [c \in DOMAIN CellRadii |-> PackRow([j \in DOMAIN Q |-> BitsOf(Cells_[c][j])])],
+           [r \in DOMAIN Radii |-> [k \in 1..n |-> BitsOf(Adj_[r][k])]],
+           <<da, PairExact(inp)>> >>,
         << \* exact: the cell-list algorithm returns exactly the atoms within the radius
            Near_ = INear_,
            \* superset: cell queries contain every atom within cell_radius * cell_size
            \* and nothing that is not selected
-           \A c \in DOMAIN CellRadii : \A j \in DOMAIN Queries :
+           \A c \in DOMAIN CellRadii : \A j \in DOMAIN Q :
                Must_[c][j] \subseteq Cells_[c][j] /\ Cells_[c][j] \subseteq sel,
            \* adjacency: symmetric, selected diagonal set, unselected rows/columns empty
            \A r \in DOMAIN Radii : \A k, m \in 1..n :
                /\ (m \in Adj_[r][k]) <=> (k \in Adj_[r][m])
                /\ (k \in sel => k \in Adj_[r][k])
                /\ (m \in Adj_[r][k] => (k \in sel /\ m \in sel)),
-           ImplCellsInGrid(g) >> >>
+           ImplCellsInGrid(g),
+           \* pairdist: the adjacency matrix is the pairwise distance matrix thresholded (and
+           \* restricted to the selection); the algorithm of the distance functions
+           \* (orthogonal shortcut / 8 copies) returns the length of a periodic copy, the
+           \* shortest one for boxes inside Dom_Images8
+           /\ \A r \in DOMAIN Radii : \A k \in 1..n :
+                 Adj_[r][k] = DistAdjRow(inp, k, Radii[r]) /\ Adj_[r][k] = AdjRow(inp, k, Radii[r])
+           /\ \A k, m \in 1..n :
+                 LET i2 == ImplPairD2(inp, g.bx, k, m)
+                 IN i2 >= da[k][m] /\ (PairExact(inp) => i2 = da[k][m]) /\ da[k][m] = da[m][k] >> >>
 
 \* (state variables are named so that they cannot coincide with a bound variable or parameter
 \* of a constant definition - TLC would stop caching that definition, see Trace.tla)
-VARIABLES vin, vout     \* vout = <<>> before, <<result, checks>> after the evaluation
-vars == <<vin, vout>>
+VARIABLES vin, vq, vout     \* vout = <<>> before, <<result, checks>> after the evaluation
+vars == <<vin, vq, vout>>
 
-Init == vin \in Inputs /\ vout = <<>>
-Next == vout = <<>> /\ vout' = Evaluate(vin) /\ UNCHANGED vin
+QueriesFor(tag) == IF tag = "few" THEN QueriesPairs ELSE Queries
+Init == /\ vout = <<>>
+        /\ \/ vin \in Inputs /\ vq = "grid"
+           \/ vin \in PairInputs /\ vq = "few"
+Next == vout = <<>> /\ vout' = Evaluate(vin, QueriesFor(vq)) /\ UNCHANGED <<vin, vq>>
 Spec == Init /\ [][Next]_vars
 
 Done == vout # <<>>
@@ -136,8 +172,13 @@ InvExact     == Done => vout[2][1]
 InvSuperset  == Done => vout[2][2]
 InvAdjacency == Done => vout[2][3]
 InvGrid      == Done => vout[2][4]
+InvPairDist  == Done => vout[2][5]
 
+\* the search over images -2..2 of the declarative layer is stable (-3..3 finds nothing
+\* shorter) and the boxes with tables satisfy Dom_Images27
+ASSUME \A B \in TabBoxes : MinImageTable(B, 3) = BoxTables[B]
+ASSUME \A B \in TabBoxes : Dom_Images27(B, BoxTables[B])
 ASSUME \A r \in DOMAIN Radii : Dom_Radius(Radii[r])
 \* the driver reads the bounded sets from TLC (it never rebuilds them)
-ASSUME PrintT(<<"C14CONST", Queries, Radii, CellRadii, MultiShifts>>)
+ASSUME PrintT(<<"C14CONST", Queries, Radii, CellRadii, MultiShifts, QueriesPairs>>)
 =============================================================================
